@@ -28,4 +28,16 @@ CLAIMED = {
     'C14': ('MIR dominance (detect before write), edge-reachability (mismatch edge never reaches Ok), enum-arm exhaustiveness over constructed reorg::Error variants',
             'static rule check: detection dominates all index writes of a block, a hash mismatch cannot return Ok, both error kinds have explicit handlers, the unrecoverable flag is stored before returning and surfaced in status, the loop retries after rollback',
             'trusted: savepoint spacing covers the recoverable depth (numeric, not decided); redb restore', '§5 C14'),
+    'C04': ('table-write ownership (who-may-call with table identity) + path rule (special ∧ stored ⇒ through merged) + lockstep (envelope ↔ flotsam) + must-consume of leftover flotsam',
+            'static rule check: special pseudo-outputs are merged never overwritten, merge keeps both operands, every envelope yields exactly one flotsam, every flotsam is re-attached or carried; holds on every path of the indexing code',
+            'decides the structural necessary conditions, not the per-height count/location audit', '§5 C04'),
+    'C10': ('guard inventory with normalised comparison atoms and polarity (height<start, height>=end, mints>=cap), callee identity (max/min, saturating_add), dominance of the counter update by the Ok-edge of mintable',
+            'static rule check of the exact comparison set under which a mint succeeds and of the ordering check→increment→write-back; an off-by-one (<= for <) or swapped min/max changes an atom and is reported',
+            'chain-history interaction not decided', '§5 C10'),
+    'C11': ('guard inventory with polarity over RuneUpdater::etched / tx_commits_to_rune, variant-constancy of the cenotaph arm, lockstep table writes and read-before-increment ordering in create_rune_entry',
+            'static rule check: a named etching yields a rune only under the four validity guards, commitment requires p2tr and height-diff+1 >= COMMIT_CONFIRMATIONS, entry creation writes all lookup tables together with number read before the single increment',
+            'uniqueness over histories and the unlock schedule not decided', '§5 C11'),
+    'C17': ('lockstep effects between OUTPOINT_TO_UTXO_ENTRY and SCRIPT_PUBKEY_TO_OUTPOINT writes (edge-based path search modulo the index_addresses guard) + key/value provenance',
+            'static rule check: every UTXO-table insert/remove is paired with the address-index insert/remove for the script parsed from that same entry and the same outpoint, on every path',
+            'exactness over histories not decided', '§5 C17'),
 }
